@@ -100,7 +100,7 @@ func vFSOpenAttempts() int { return 0 }
 // vClockMode: 0 concrete clock, 1 symbolic non-decreasing readings, 2 one symbolic frozen reading.
 func vClockMode(mode int) {}
 
-// vFaults enables symbolic OpenFile / Write failures.
+// vFaults enables symbolic OpenFile / Write failures (1: each call may fail, a path split; write == 2: every write fails).
 func vFaults(open, write int) {}
 
 // vClockCount / vClockReading expose the symbolic clock's readings (engine only).
